@@ -6,3 +6,4 @@ ATOMS = [('universe/u_atoms.cc', ['VU_PART=%d' % i]) for i in range(1, 4)]
 EQUIV = [('universe/u_equiv.cc', ['VU_PART=%d' % i]) for i in range(1, 5)]
 TRAITS = [('universe/u_traits.cc', ['VU_PART=%d' % i]) for i in range(1, 5)]
 ALL = [('universe/u_all.cc', [])]
+GRAMMARS = [('universe/u_grammars.cc', [])]
